@@ -7,6 +7,7 @@ import (
 	"os/exec"
 	"path/filepath"
 	"sort"
+	"strings"
 	"sync"
 	"time"
 )
@@ -245,6 +246,10 @@ func (r *Report) isolate(i, n int, curFile string, shardErr error, tail string) 
 			defer wg.Done()
 			cmd := exec.Command(os.Args[0], "exec-one", r.Property, cur.Part, string(cj))
 			cmd.Env = append(os.Environ(), "GOMAXPROCS=1", "VERIF_SHARD=", "GOTRACEBACK=single")
+			if strings.HasSuffix(os.Args[0], ".test") { // tier-B test binary: same arguments, sequence through the environment
+				cmd = exec.Command(os.Args[0], os.Args[1:]...)
+				cmd.Env = append(os.Environ(), "GOMAXPROCS=1", "VERIF_SHARD=", "GOTRACEBACK=single", "VERIF_EXEC_ONE="+cur.Part+"|"+string(cj))
+			}
 			out, err := cmd.CombinedOutput()
 			s := string(out)
 			if len(s) > 2500 {
@@ -320,6 +325,16 @@ func splitLines(s string) []string {
 		}
 	}
 	return append(out, s[start:])
+}
+
+// ExecOneJSON is ExecOne with the choices given as JSON.
+func ExecOneJSON(body Body, choices string) int {
+	var prefix []int
+	if err := json.Unmarshal([]byte(choices), &prefix); err != nil {
+		fmt.Fprintln(os.Stderr, "HARNESS-ERROR: exec-one: bad choices")
+		return 3
+	}
+	return ExecOne(body, prefix)
 }
 
 // ExecOne runs one sequence under the execution guard (used by `exec-one`).
